@@ -69,6 +69,12 @@ pub mod sim {
     pub fn sched_point() {
         shuttle::thread::yield_now();
     }
+    /// Switch point used by the patched copy of rayon (par_bridge): only inside a simulation.
+    pub fn point() {
+        if active() {
+            shuttle::thread::yield_now();
+        }
+    }
 }
 
 // ---------------------------------------------------------------- jobs
